@@ -3,7 +3,8 @@
 // A MutableOverlayWorld over a static basic base world (a menu choice valid by
 // itself) receives every sequence of up to `depth` operations of the alphabet
 //
-//	AddFeature(v)        v = a menu version of one of the nine menu IDs (the
+//	AddFeature(v)        v = a menu version of one of the nine menu IDs, incl.
+//	                     the first point at the boundary locations (the
 //	                     one the world holds = re-add, another one = replace,
 //	                     an ID the world lacks = add), in scope when the whole
 //	                     world stays valid;
@@ -128,8 +129,8 @@ func execute(m *ingest.MutableOverlayWorld, o op) error {
 
 // featureVersions: the versions AddFeature is called with, in dependency order
 // (points, paths, areas, relations), menu order within an ID.
-func featureVersions(sl []wk.Slot, sch wk.IDScheme) []wk.FSpec {
-	variants := [][]int{{0, 1, 3}, {0, 1}, nil, {0, 1, 2, 3}, {1, 2}, {1, 2}, {1, 2, 3}, {1}}
+func featureVersions(sl []wk.Slot, sch wk.IDScheme, tier string) []wk.FSpec {
+	variants := [][]int{append([]int{0, 1, 3}, boundaryVariants(tier)...), {0, 1}, nil, {0, 1, 2, 3}, {1, 2}, {1, 2}, {1, 2, 3}, {1}}
 	var out []wk.FSpec
 	for i, vs := range variants {
 		if sl[i].Name == "points3+4" {
